@@ -134,6 +134,11 @@ impl ProcessState {
     pub uninterp spec fn spec_env(&self) -> Env;
     #[verifier::external_body]
     pub fn env(&self) -> (r: &Env) ensures *r == self.spec_env() { unimplemented!() }
+    /// `wrote == 0`: no statement has been written outside a finished transaction
+    pub uninterp spec fn spec_flushed(&self) -> bool;
+    /// TRUSTED getter (state.rs: `self.wrote == 0`)
+    #[verifier::external_body]
+    pub fn is_flushed(&self) -> (r: bool) ensures r == self.spec_flushed() { unimplemented!() }
 }
 /// SQLite transaction modes (BEGIN DEFERRED / IMMEDIATE / EXCLUSIVE)
 pub enum TxMode { Deferred, Immediate, Exclusive }
